@@ -114,6 +114,11 @@ OnIn(m, ev) ==
          ELSE \* does not answer the oldest outstanding packet
               [m EXCEPT !.misack = TRUE, !.needProto = Healthy(m)]
     [] ev.k = "DISCONNECT" -> [m EXCEPT !.term = TRUE]
+    [] (ev.k \in {"PINGREQ", "SUBSCRIBE", "UNSUBSCRIBE", "PUBREL"} \/ (ev.k = "PUBLISH" /\ ev.q > 0)) /\ MayOwePayload(m) ->
+         \* the peer sent something that has to be answered while a streamed PUBLISH still owes payload: the answer
+         \* cannot be written inside the payload, the library ends the connection (C08 allows the abort) - the peer
+         \* did more than acknowledge, the end of the connection has a cause
+         [m EXCEPT !.term = TRUE]
     [] OTHER -> m
 
 MarkBusy(m, id) == [m EXCEPT !.suspects = @ \ {id}, !.snd = [k \in 1..Len(@) |-> IF @[k].st = "live" THEN [@[k] EXCEPT !.busy = @ \cup {id}] ELSE @[k]]]
